@@ -420,6 +420,8 @@ type tblGuard struct {
 	escaping map[types.Object]bool
 	// locals on which a pointer-receiver method is called (implicit address-of); computed lazily
 	ptrRecv map[types.Object]bool
+	// booleans of comma-ok type assertions; computed lazily
+	okAsserts map[types.Object]*ast.TypeAssertExpr
 }
 
 type tblResCall struct {
@@ -710,6 +712,9 @@ func (r *tblRun) evalConst(e ast.Expr) (val bool, known bool) {
 			if r.assume[o] == "true" {
 				return true, true
 			}
+			if r.assume[o] == "false" {
+				return false, true
+			}
 		}
 	case *ast.UnaryExpr:
 		if x.Op == token.NOT {
@@ -810,10 +815,22 @@ func (r *tblRun) condFacts(cond ast.Expr, truth bool) *tblFacts {
 		if init := g.condAlias[o]; init != nil {
 			return r.condFacts(init, truth)
 		}
-		if rc, ok := g.resCalls[o]; ok && truth {
-			return r.successFacts(rc.Call, rc.Idx, "true")
+		if rc, ok := g.resCalls[o]; ok {
+			if truth {
+				return r.successFacts(rc.Call, rc.Idx, "true")
+			}
+			return r.successFacts(rc.Call, rc.Idx, "false")
+		}
+		// `v, ok := x.(T)`: ok tells whether x's discriminator is one of T's constants
+		if ta := g.okAssert(o); ta != nil {
+			return g.assertFacts(ta, truth, cond)
 		}
 	case *ast.CallExpr:
+		if !truth {
+			if fn := CalleeOf(g.info, x); fn != nil && g.m.fns[fn.Origin()] != nil {
+				return r.successFacts(x, 0, "false")
+			}
+		}
 		if truth {
 			// slices.Contains(vs, path) with vs a variadic parameter whose elements are known at this call
 			if fn := CalleeOf(g.info, x); fn != nil && fn.Pkg() != nil && fn.Pkg().Path() == "slices" && fn.Name() == "Contains" && len(x.Args) == 2 {
@@ -940,6 +957,85 @@ func (r *tblRun) condFacts(cond ast.Expr, truth bool) *tblFacts {
 	return out
 }
 
+// okAssert: o is the boolean of a comma-ok type assertion `v, ok := x.(T)` that
+// defines it (once; never reassigned): that assertion.
+func (g *tblGuard) okAssert(o types.Object) *ast.TypeAssertExpr {
+	if g.okAsserts == nil {
+		g.okAsserts = map[types.Object]*ast.TypeAssertExpr{}
+		defs := map[types.Object]int{}
+		ast.Inspect(g.body, func(n ast.Node) bool {
+			as, ok := n.(*ast.AssignStmt)
+			if !ok {
+				return true
+			}
+			for i, l := range as.Lhs {
+				id, ok := ast.Unparen(l).(*ast.Ident)
+				if !ok {
+					continue
+				}
+				if d := g.info.Defs[id]; d != nil {
+					defs[d]++
+					if i == 1 && len(as.Lhs) == 2 && len(as.Rhs) == 1 {
+						if ta, ok := ast.Unparen(as.Rhs[0]).(*ast.TypeAssertExpr); ok && ta.Type != nil {
+							g.okAsserts[d] = ta
+						}
+					}
+				}
+			}
+			return true
+		})
+		for d, n := range defs {
+			if n != 1 || g.written[d] > 0 {
+				delete(g.okAsserts, d)
+			}
+		}
+	}
+	return g.okAsserts[o]
+}
+
+// assertFacts: what the outcome of `_, ok := x.(T)` says about x's
+// discriminator: ok ⇒ one of T's constants; !ok ⇒ none of them (when no other
+// implementer shares them). x must be a path that cannot change between the
+// assertion and the test (an unmodified local / parameter, no pointer on the
+// way).
+func (g *tblGuard) assertFacts(ta *ast.TypeAssertExpr, ok bool, at ast.Expr) *tblFacts {
+	out := newTblFacts()
+	ki := g.m.ifaceOf(g.info.TypeOf(ta.X))
+	if ki == nil {
+		return out
+	}
+	im := ki.implOf(g.info.TypeOf(ta.Type))
+	if im == nil || im.NonConst != "" || len(im.Kinds) == 0 {
+		return out
+	}
+	xp := g.pathOf(ta.X)
+	if xp == nil || !g.immutablePath(xp) {
+		return out
+	}
+	set := map[string]bool{}
+	for _, k := range im.Kinds {
+		v := k.Val().ExactString()
+		if len(ki.byKind[v]) != 1 {
+			return out // a shared constant does not identify the type
+		}
+		set[v] = true
+	}
+	f := &tblFact{Path: xp.extend("."+ki.Method+"()", false), Enum: ki.Enum, Allowed: map[string]bool{}}
+	if ok {
+		f.Allowed = set
+		f.Why = fmt.Sprintf("%s holds a %s (%s)", exprStr(ta.X), im.name(), g.m.c.Pos(at.Pos()))
+	} else {
+		for v := range ki.Enum.ByVal {
+			if !set[v] {
+				f.Allowed[v] = true
+			}
+		}
+		f.Why = fmt.Sprintf("%s does not hold a %s (%s)", exprStr(ta.X), im.name(), g.m.c.Pos(at.Pos()))
+	}
+	out.restrict(f)
+	return out
+}
+
 // concreteKind: e is `recv.Kind()` with recv of a concrete implementer type.
 func (g *tblGuard) concreteKind(e ast.Expr) (map[string]bool, *Enum, string) {
 	call, ok := ast.Unparen(e).(*ast.CallExpr)
@@ -947,7 +1043,7 @@ func (g *tblGuard) concreteKind(e ast.Expr) (map[string]bool, *Enum, string) {
 		return nil, nil, ""
 	}
 	se, ok := ast.Unparen(call.Fun).(*ast.SelectorExpr)
-	if !ok || se.Sel.Name != "Kind" {
+	if !ok {
 		return nil, nil, ""
 	}
 	t := g.info.TypeOf(se.X)
@@ -962,7 +1058,7 @@ func (g *tblGuard) concreteKind(e ast.Expr) (map[string]bool, *Enum, string) {
 		return nil, nil, ""
 	}
 	for _, ki := range g.m.ifaces {
-		if ki.Enum.Type != en.Type {
+		if ki.Enum.Type != en.Type || ki.Method != se.Sel.Name {
 			continue
 		}
 		if im := ki.implOf(t); im != nil && im.NonConst == "" {
@@ -1908,7 +2004,14 @@ func (r *tblRun) transferStmt(facts *tblFacts, s ast.Stmt) {
 		}
 		g.kills(facts, x)
 		for _, c := range cps {
-			if c.dst.Key != c.src.Key {
+			// (in a parallel assignment the source may be overwritten by the same statement)
+			clobbered := false
+			for _, l := range x.Lhs {
+				if lp := tblPathOf(g.info, l); lp != nil && lp.Root == c.src.Root && (tblHasPrefix(c.src.Parts, lp.Parts) || tblHasPrefix(lp.Parts, c.src.Parts)) {
+					clobbered = true
+				}
+			}
+			if c.dst.Key != c.src.Key && !clobbered {
 				e := tblEq{A: c.dst, B: c.src, Why: fmt.Sprintf("%s = %s (%s)", exprStr(x.Lhs[0]), exprStr(x.Rhs[0]), g.m.c.Pos(x.Pos()))}
 				facts.eqs[e.key()] = e
 			}
@@ -1921,6 +2024,23 @@ func (r *tblRun) transferStmt(facts *tblFacts, s ast.Stmt) {
 				facts.restrict(&tblFact{Path: np, Enum: ft.Enum, Allowed: ft.Allowed, Why: ft.Why + fmt.Sprintf("; copied by %s = %s (%s)", exprStr(x.Lhs[0]), exprStr(x.Rhs[0]), g.m.c.Pos(x.Pos()))})
 			}
 		}
+	case *ast.ExprStmt:
+		// a call statement of a module function: what it kills, then what its body re-establishes from
+		// what was known before (e.g. a helper that shifts the token cursor)
+		if call, ok := ast.Unparen(x.X).(*ast.CallExpr); ok && !facts.empty() && r.depth < 3 {
+			if fn := CalleeOf(g.info, call); fn != nil && g.m.fns[fn.Origin()] != nil {
+				pre := facts.clone()
+				g.kills(facts, s)
+				saved := r.cur
+				r.cur = pre
+				facts.and(r.successFacts(call, -1, ""))
+				r.cur = saved
+				return
+			}
+		}
+		g.kills(facts, s)
+		r.cur = facts
+		facts.and(r.afterStmt(s))
 	case *ast.DeclStmt:
 		// `var k = expr` is `k := expr`
 		if gd, ok := x.Decl.(*ast.GenDecl); ok && gd.Tok == token.VAR {
@@ -2204,7 +2324,8 @@ func (r *tblRun) successFacts(call *ast.CallExpr, idx int, want string) *tblFact
 		return out
 	}
 	sig := fn.Type().(*types.Signature)
-	if idx >= sig.Results().Len() {
+	allExits := want == "" // the effect of a call statement: what holds at every way out of the callee
+	if !allExits && idx >= sig.Results().Len() {
 		return out
 	}
 	// pre-call facts: the snapshot taken before a bound call (usable only while nothing else ran),
@@ -2342,7 +2463,57 @@ func (r *tblRun) successFacts(call *ast.CallExpr, idx int, want string) *tblFact
 	// successful returns
 	var acc *tblFacts
 	unknown := false
+	if allExits {
+		if init2.empty() {
+			return out // nothing known that the callee could carry over
+		}
+		join := func(fs *tblFacts) {
+			for _, dc := range g2.deferred() {
+				g2.kills(fs, dc)
+			}
+			if acc == nil {
+				acc = fs
+			} else {
+				acc = tblFactsOr(acc, fs)
+			}
+		}
+		ast.Inspect(f.Decl.Body, func(n ast.Node) bool {
+			switch x := n.(type) {
+			case *ast.FuncLit:
+				return false
+			case *ast.ReturnStmt:
+				rr := &tblRun{g: g2, depth: r2.depth, consts: r2.consts, elems: r2.elems}
+				fs := rr.factsTo(x, init2)
+				if rr.dead {
+					return true
+				}
+				for _, res := range x.Results {
+					g2.kills(fs, res)
+				}
+				join(fs)
+			}
+			return true
+		})
+		// falling off the end of the body
+		if list := f.Decl.Body.List; len(list) == 0 {
+			join(init2.clone())
+		} else if !g.m.tblTerminates(g2.info, list) {
+			last := list[len(list)-1]
+			rr := &tblRun{g: g2, depth: r2.depth, consts: r2.consts, elems: r2.elems}
+			fs := rr.factsTo(last, init2)
+			if !rr.dead {
+				rr.fresh = map[*ast.CallExpr]bool{}
+				rr.transferStmt(fs, last)
+				if !rr.dead {
+					join(fs)
+				}
+			}
+		}
+	}
 	ast.Inspect(f.Decl.Body, func(n ast.Node) bool {
+		if allExits {
+			return false
+		}
 		switch x := n.(type) {
 		case *ast.FuncLit:
 			return false
@@ -2389,12 +2560,12 @@ func (r *tblRun) successFacts(call *ast.CallExpr, idx int, want string) *tblFact
 					// `return g(…)`: what holds when g succeeds in the same sense
 					if fn2 := CalleeOf(g2.info, v); fn2 != nil && g.m.fns[fn2.Origin()] != nil {
 						viaCall = v
-					} else if want == "true" {
+					} else if want == "true" || want == "false" {
 						viaCond = v
 					}
 				case *ast.BinaryExpr, *ast.UnaryExpr:
 					// `return x.Kind() == K && …` (a predicate helper): what the condition implies when true
-					if want == "true" {
+					if want == "true" || want == "false" {
 						viaCond = resExpr
 					}
 				}
@@ -2411,7 +2582,7 @@ func (r *tblRun) successFacts(call *ast.CallExpr, idx int, want string) *tblFact
 			if viaCond != nil {
 				g2.kills(fs, viaCond)
 				rr.cur = fs
-				fs.and(rr.condFacts(viaCond, true))
+				fs.and(rr.condFacts(viaCond, want == "true"))
 			}
 			// deferred calls run after the return value is set and before the caller continues
 			for _, dc := range g2.deferred() {
@@ -2454,6 +2625,9 @@ func (r *tblRun) successFacts(call *ast.CallExpr, idx int, want string) *tblFact
 		return nil
 	}
 	where := fmt.Sprintf("%s succeeded (%s)", exprStr(call.Fun), g.m.c.Pos(call.Pos()))
+	if allExits {
+		where = fmt.Sprintf("%s returned (%s)", exprStr(call.Fun), g.m.c.Pos(call.Pos()))
+	}
 	for _, ft := range acc.m {
 		if np := toCaller(ft.Path); np != nil {
 			out.restrict(&tblFact{Path: np, Enum: ft.Enum, Allowed: ft.Allowed, Why: where + " ⇒ " + ft.Why})
@@ -2484,6 +2658,14 @@ func (g *tblGuard) resultIs(r *tblRun, ret *ast.ReturnStmt, e ast.Expr, want str
 	case "true":
 		if v, k := r.evalConst(e); k {
 			if v {
+				return tblYes
+			}
+			return tblNo
+		}
+		return tblMaybe
+	case "false":
+		if v, k := r.evalConst(e); k {
+			if !v {
 				return tblYes
 			}
 			return tblNo
